@@ -3105,6 +3105,319 @@ def stream_history_independence(ctx):
                         {'after the same call whose returned container the caller changed': after})
 
 
+# ---------------------------------------------------------------------------------------------------------------------
+# Key alphabets (added after seeding round 10)
+#
+# An object is a string-keyed map whose key SEQUENCE is the insertion order of the reference dict: a new key goes to the end, an
+# overwritten key keeps its place, a deleted and re-inserted key moves to the end, objectAssign appends the source's new keys in the
+# source's order, objectCopy / objectNew keep the given order.  objectKeys is the observer (jsonStringify sorts: not an oracle here).
+# Every other stream draws keys from six ordinary words, which no key-dependent rule can tell apart; stream `object-keys` draws them
+# from FAMILIES of keys a host mapping, another implementation of the language or a cache might treat specially - keys that ARE
+# canonical array indices ('0', '7', '10', '4294967295', '4294967296'), keys that only LOOK like numbers ('01', '-1', '1.5', '1e3',
+# ' 1', '1_0', non-ASCII digits, ''), keywords / dunder / dict-method names, keys that differ only by case or normalisation form,
+# very long keys - inserted in ascending, descending and shuffled order, with a scale axis on the number of keys.
+# ---------------------------------------------------------------------------------------------------------------------
+
+KF_INDEX_SPECIALS = [0, 7, 10, 4294967295, 4294967296, 9, 2, 1, 100, 99, 4294967294, 9999999999, 10000000000, 11, 2 ** 53, 2 ** 64, 101]
+KF_NEAR = ['', ' 1', '+1', '-0', '-1', '00', '01', '0x10', '1 ', '1.0', '1.5', '1_0', '1e3', 'Infinity', 'NaN',
+           '\u0661', '\u0967', '\uff11']      # (Arabic-Indic, Devanagari, fullwidth digit one: int() of the host reads them as 1)
+KF_WORDS = ['__class__', '__dict__', '__proto__', 'clear', 'constructor', 'copy', 'false', 'for', 'function', 'get', 'hasOwnProperty', 'if',
+            'items', 'keys', 'length', 'null', 'pop', 'prototype', 'return', 'toString', 'true', 'update', 'values']
+KF_CASE = sorted(['A', 'a', 'KEY', 'Key', 'key', 'k', '\u212a', 'SS', 'ss', '\u00df', 'fi', '\ufb01', 'i\u0307', '\u0130', '\u00e9', 'e\u0301',
+                  '\u00c5', 'A\u030a', '\u212b', '\u03c3', '\u03c2', '\u03a3'])
+KF_LONG = sorted(['k', '9', 'k' * 100, 'k' * 101, 'k' * 999 + 'x', 'k' * 1000, 'k' * 1000 + 'x', '9' * 100, '1' + '0' * 99, '1' + '0' * 100,
+                  'ab' * 500, 'ab' * 500 + 'a', '\u20ac' * 300, 'K' * 1000, '0' * 1000, '12' * 2048])
+# keys a lookup might conflate: equal after strip / int() / float() / case folding / normalisation / truncation / wrap-around at 2**32
+KF_CONFUSABLE = sorted(['1', ' 1', '1 ', '+1', '01', '1.0', '\u0661', '\uff11', '10', '1_0', '1000', '1e3', '0', '-0', '', ' ', '00', '0.0', '4294967296', '4294967295', '-1',
+                        'key', 'Key', 'KEY', 'key ', 'k', '\u212a', 'ss', '\u00df', '\u00e9', 'e\u0301', 'k' * 1000, 'k' * 1000 + 'x', 'null', 'None', 'true', 'True'])
+KF_SIZES = [0, 1, 2, 9, 10, 11, 16, 17, 64, 65, 100, 101, 128, 129, 256, 1000]
+KF_ORDERS = ('ascending', 'descending', 'shuffled')
+
+
+def kf_index(n):
+    """n canonical array-index keys (the special ones first, then further small ones) in ascending NUMERIC order"""
+    nums = list(KF_INDEX_SPECIALS[:n])
+    k = 3
+    while len(nums) < n:
+        if k not in nums:
+            nums.append(k)
+        k += 1
+    return [str(x) for x in sorted(nums)]
+
+
+def kf_mixed(n):
+    """n keys alternating canonical indices, ordinary words and near-numbers, in ascending code-point order"""
+    idx = kf_index((n + 2) // 3)
+    out = []
+    for i in range(n):
+        out.append(idx[i // 3] if i % 3 == 0 else f'k{i}' if i % 3 == 1 else (f'0{i}', f'-{i}', f'{i}.5', f' {i}')[(i // 3) % 4])
+    return sorted(out)
+
+
+# family -> (keys of size n in the family's ascending order, largest size)
+KEY_FAMILIES = {
+    'index': (kf_index, 1000),
+    'mixed': (kf_mixed, 1000),
+    'near-number': (lambda n: KF_NEAR[:n], len(KF_NEAR)),
+    'words': (lambda n: KF_WORDS[:n], len(KF_WORDS)),
+    'case-normalisation': (lambda n: KF_CASE[:n], len(KF_CASE)),
+    'long': (lambda n: KF_LONG[:n], len(KF_LONG)),
+    'confusable': (lambda n: KF_CONFUSABLE[:n], len(KF_CONFUSABLE)),
+}
+KF_RANDOM_KEYS = {
+    'index': kf_index(17),
+    'mixed': kf_index(9) + KF_NEAR[:9] + ['a', 'name', 'x1', 'Alpha', 'zeta'],
+    'near-number': KF_NEAR + ['1', '0', '10'],
+    'words': KF_WORDS,
+    'case-normalisation': KF_CASE,
+    'long': KF_LONG + ['10', '2'],
+    'confusable': KF_CONFUSABLE,
+    'all': kf_index(12) + KF_NEAR + KF_WORDS[:8] + KF_CASE[:8] + KF_LONG[:6],
+}
+KF_RANDOM_KEYS = {fam: list(dict.fromkeys(keys)) for fam, keys in KF_RANDOM_KEYS.items()}      # (a key table has no duplicates)
+
+
+def kf_order(keys, order, rng):
+    keys = list(keys)
+    if order == 'descending':
+        keys.reverse()
+    elif order == 'shuffled':
+        rng.shuffle(keys)
+    return keys
+
+
+def kf_unsorted(keys):
+    """is this key sequence different from every order a key-dependent rule would produce (code-point order, indices first)?"""
+    keys = list(keys)
+    canon = [k for k in keys if re.fullmatch(r'0|[1-9][0-9]*', k, re.ASCII)]
+    return len(keys) >= 2 and keys != sorted(keys) and keys != sorted(canon, key=int) + [k for k in keys if k not in canon]
+
+
+def kf_systematic(rng, shuffles=1, quick=False):
+    """family x order x size x build mode, then a fixed tail of calls that observes the key sequence after a copy, two assignments,
+    a delete + re-insert, an overwrite - through the object, its alias and the earlier copy.  -> [(tags, spec)]
+    quick: of the sizes above 17 only  index x descending / shuffled x host (1000: descending only), index x shuffled x objectNew, mixed x shuffled x host"""
+    out = []
+    for fam, (keys_of, largest) in KEY_FAMILIES.items():
+        for order in KF_ORDERS:
+            for n in [s for s in KF_SIZES if s <= largest] + ([largest] if largest not in KF_SIZES else []):
+                for mode in ('host', 'objectNew', 'objectSet'):
+                    if (mode == 'objectNew' and n > 129) or (mode == 'objectSet' and n > 17):
+                        continue
+                    if quick and n > 23 and not ((fam, mode) == ('index', 'host') and (order == 'descending' or (order == 'shuffled' and n < 1000))
+                                                 or (fam, order, mode) in (('index', 'shuffled', 'objectNew'), ('mixed', 'shuffled', 'host')) and n < 1000):
+                        continue
+                    for _ in range(shuffles if order == 'shuffled' and n > 2 else 1):
+                        keys = kf_order(keys_of(n), order, rng)
+                        pairs = [[k, {'n': [i % 7, 1]}] for i, k in enumerate(keys)]
+                        # variables: 0, 1 the object and its alias; 2 an empty object; 3 a two-key object sharing one key with the object
+                        other = [['zz', {'n': [1, 1]}]] + ([[keys[len(keys) // 2], {'n': [2, 1]}]] if keys else [])
+                        heap = [{'obj': pairs if mode == 'host' else []}, {'obj': []}, {'obj': other}]
+                        env = [{'o': 0}, {'o': 0}, {'o': 1}, {'o': 2}]
+                        calls = []
+                        target = {'var': 0}
+                        if mode == 'objectNew':
+                            calls.append({'fn': 'objectNew', 'args': [x for k, v in pairs for x in ({'s': k}, v)]})
+                            target = {'var': 4}
+                        elif mode == 'objectSet':
+                            calls += [{'fn': 'objectSet', 'args': [{'var': 0}, {'s': k}, v]} for k, v in pairs]
+                        base = len(env) + len(calls)
+                        calls += [{'fn': 'objectKeys', 'args': [target]},                        # base
+                                  {'fn': 'objectCopy', 'args': [target]},                        # base + 1
+                                  {'fn': 'objectKeys', 'args': [{'var': base + 1}]},
+                                  {'fn': 'objectAssign', 'args': [{'var': 2}, target]},
+                                  {'fn': 'objectKeys', 'args': [{'var': 2}]},
+                                  {'fn': 'objectAssign', 'args': [{'var': 3}, target]},
+                                  {'fn': 'objectKeys', 'args': [{'var': 3}]}]
+                        if keys:
+                            first, mid = keys[0], keys[len(keys) // 2]
+                            calls += [{'fn': 'objectDelete', 'args': [target, {'s': first}]},
+                                      {'fn': 'objectKeys', 'args': [target]},
+                                      {'fn': 'objectSet', 'args': [target, {'s': first}, None]},
+                                      {'fn': 'objectSet', 'args': [target, {'s': mid}, {'s': mid}]}]
+                        calls += [{'fn': 'objectKeys', 'args': [{'var': 1} if mode != 'objectNew' else target]},
+                                  {'fn': 'objectKeys', 'args': [{'var': base + 1}]}]
+                        out.append(([f'family:{fam}', f'order:{order}', f'keys:{n}', f'built-by:{mode}'],
+                                    {'heap': heap, 'env': env, 'calls': calls}))
+    return out
+
+
+def kf_lookup():
+    """Keys are compared as code-point sequences - no key stands for another one.  For every key k of every family:
+    A. an object (with an alias) holding every OTHER key of the family: objectHas / objectGet / objectGet with default / objectDelete of k (absent:
+       false / null / the default / nothing changes), objectSet (k goes to the end), objectGet, objectDelete (only k goes);
+    B. an object holding ONLY k: objectHas, objectGet with default, objectDelete of the other keys of the family (<= 28 per history), objectKeys.
+    -> [(tags, spec)]"""
+    out = []
+    for fam, keys in sorted(KF_RANDOM_KEYS.items()):
+        if fam in ('all', 'mixed'):
+            continue
+        for j, k in enumerate(keys):
+            others = [x for x in reversed(keys) if x != k]
+            o, key = {'var': j % 2}, {'s': k}
+            calls = [{'fn': 'objectHas', 'args': [o, key]}, {'fn': 'objectGet', 'args': [o, key]}, {'fn': 'objectGet', 'args': [o, key, {'s': 'default'}]},
+                     {'fn': 'objectDelete', 'args': [o, key]}, {'fn': 'objectKeys', 'args': [{'var': 0}]}, {'fn': 'objectSet', 'args': [o, key, {'n': [1, 1]}]},
+                     {'fn': 'objectKeys', 'args': [{'var': 1}]}, {'fn': 'objectGet', 'args': [o, key, {'s': 'default'}]}, {'fn': 'objectHas', 'args': [o, key]},
+                     {'fn': 'objectDelete', 'args': [o, key]}, {'fn': 'objectKeys', 'args': [{'var': 0}]}]
+            out.append(([f'family:{fam}', 'lookup:absent-among-all-others'],
+                        {'heap': [{'obj': [[x, {'s': x}] for x in others]}], 'env': [{'o': 0}, {'o': 0}], 'calls': calls}))
+            for start in range(0, len(others), 28):
+                calls = []
+                for i, x in enumerate(others[start:start + 28]):
+                    fn = ('objectHas', 'objectGet', 'objectDelete')[(i + j) % 3]
+                    calls.append({'fn': fn, 'args': [{'var': i % 2}, {'s': x}] + ([{'s': 'default'}] if fn == 'objectGet' else [])})
+                calls.append({'fn': 'objectKeys', 'args': [{'var': 0}]})
+                out.append(([f'family:{fam}', 'lookup:others-against-one'],
+                            {'heap': [{'obj': [[k, {'s': k}]]}], 'env': [{'o': 0}, {'o': 0}], 'calls': calls}))
+    return out
+
+
+def gen_key_history(rng, keys, maxlen=30):
+    """A random history over the object functions on a pool of aliased objects; keys from `keys` (a family in ascending order)."""
+    order = rng.choice(KF_ORDERS)
+
+    def some_keys(n):
+        n = min(n, len(keys))
+        picked = set(rng.sample(range(len(keys)), n))
+        return kf_order([k for i, k in enumerate(keys) if i in picked], order, rng)
+
+    def value():
+        r = rng.random()
+        return None if r < 0.1 else {'s': rng.choice(keys)} if r < 0.2 else {'n': [rng.randint(0, 9), 1]}
+    heap = [{'obj': [[k, value()] for k in some_keys(rng.choice([0, 0, 1, 2, 3, 5, 8]))]} for _ in range(rng.randint(2, 4))]
+    env = [{'o': r} for r in range(len(heap)) for _ in range(rng.choice([1, 2, 2, 3]))] + [{'s': rng.choice(keys)}, {'n': [rng.randint(0, 11), 1]}, None]
+    rng.shuffle(env)
+    spec = {'heap': heap, 'env': env}
+    _, shadow, val = build_pool(spec)
+    shadow = list(shadow)
+    calls = []
+
+    def emit(fn, args):
+        calls.append({'fn': fn, 'args': args})
+        shadow.append(ref_call(fn, [shadow[a['var']] if isinstance(a, dict) and 'var' in a else val(a) for a in args])[1])
+
+    def obj():
+        return {'var': rng.choice([i for i, v in enumerate(shadow) if isinstance(v, dict)])}
+
+    def key_of(o):
+        present = list(shadow[o['var']])
+        if rng.random() < 0.03:
+            return rng.choice([{'n': [rng.randint(0, 11), 1]}, None, {'var': rng.randrange(len(shadow))}])      # a key that is not a string: the call fails
+        return {'s': rng.choice(present)} if present and rng.random() < 0.5 else {'s': rng.choice(keys)}
+    n = rng.randint(3, maxlen - 3)
+    while len(calls) < n:
+        op = rng.choice(['set'] * 5 + ['delete'] * 2 + ['reinsert'] * 2 + ['assign'] * 2 + ['copy', 'new', 'new', 'run', 'get', 'has'] + ['keys'] * 4)
+        o = obj()
+        if op == 'set':
+            emit('objectSet', [o, key_of(o), value()])
+        elif op == 'delete':
+            emit('objectDelete', [o, key_of(o)])
+        elif op == 'reinsert':
+            k = key_of(o)
+            emit('objectDelete', [o, k])
+            emit('objectSet', [obj() if rng.random() < 0.2 else o, k, value()])
+        elif op == 'assign':
+            emit('objectAssign', [o, obj()])
+        elif op == 'copy':
+            emit('objectCopy', [o])
+        elif op == 'new':
+            emit('objectNew', [x for k in some_keys(rng.choice([0, 1, 2, 2, 3, 5])) for x in ({'s': k}, value())])
+        elif op == 'run':
+            for k in some_keys(rng.choice([2, 3, 4])):
+                emit('objectSet', [o, {'s': k}, value()])
+        elif op == 'get':
+            emit('objectGet', [o, key_of(o)] + ([value()] if rng.random() < 0.5 else []))
+        elif op == 'has':
+            emit('objectHas', [o, key_of(o)])
+        else:
+            emit('objectKeys', [o])
+    seen = set()
+    for i, v in enumerate(list(shadow)):
+        if isinstance(v, dict) and id(v) not in seen and len(calls) < maxlen:
+            seen.add(id(v))
+            emit('objectKeys', [{'var': i}])
+    spec['calls'] = calls
+    return spec
+
+
+class key_mode:
+    """within the block the generators of the lib stream draw object keys from the given family"""
+
+    def __init__(self, keys):
+        self.keys = list(keys)
+
+    def __enter__(self):
+        global KEYS                                              # pylint: disable=global-statement
+        self.saved = KEYS
+        KEYS = self.keys
+
+    def __exit__(self, *unused):
+        global KEYS                                              # pylint: disable=global-statement
+        KEYS = self.saved
+
+
+def kf_observed(spec):
+    """-> (largest object whose keys a call of the history lists, was one of the listed key sequences distinguishable from a sorted one?)"""
+    _, shadow, val = build_pool(spec)
+    shadow = list(shadow)
+    largest, unsorted = 0, False
+    for c in spec['calls']:
+        args = [(shadow[a['var']] if a['var'] < len(shadow) else None) if isinstance(a, dict) and 'var' in a else val(a) for a in c['args']]
+        kind, res = ref_call(c['fn'], args)
+        if c['fn'] == 'objectKeys' and kind == 'ok':
+            largest = max(largest, len(res))
+            unsorted = unsorted or kf_unsorted(res)
+        shadow.append(res)
+    return largest, unsorted
+
+
+def key_history_specs(rng, nrandom, nlib, shuffles=1, quick=False):
+    """-> [(tags, spec)]: the systematic product, random object histories per family, lib-stream histories with the family as key table"""
+    cases = kf_systematic(rng, shuffles, quick) + kf_lookup()
+    fams = sorted(KF_RANDOM_KEYS)
+    for i in range(nrandom):
+        fam = fams[i % len(fams)]
+        cases.append(([f'family:{fam}', 'random-object-history'], gen_key_history(rng, KF_RANDOM_KEYS[fam])))
+    for i in range(nlib):
+        fam = fams[i % len(fams)]
+        with key_mode(KF_RANDOM_KEYS[fam]):
+            cases.append(([f'family:{fam}', 'lib-history'], gen_history(rng, maxlen=20)))
+    return cases
+
+
+def stream_object_keys(ctx):
+    st = ctx.stream('object-keys',
+                    'the key sequence of an object is the insertion order of the reference dict, whatever the keys look like: object histories whose keys come from the '
+                    "families index (canonical array indices '0' '7' '10' '4294967295' '4294967296' ...), near-number ('' ' 1' '+1' '-0' '-1' '00' '01' '0x10' '1.0' "
+                    "'1.5' '1_0' '1e3' 'NaN', non-ASCII digits), words (keywords, dunder and dict-method names: '__proto__' 'constructor' 'keys' 'items' 'pop' 'if' "
+                    "'null'), case-normalisation ('key' 'Key' 'KEY', U+00E9 / e U+0301, sharp s / ss, Kelvin sign / k, final sigma), long (100, 101, 1000, 1001, 4096 "
+                    'code points, equal up to the last one) and mixed.  Systematic part: family x inserted in ascending / descending / shuffled order x number of keys 0, 1, 2, 9, 10, 11, 16, '
+                    '17, 64, 65, 100, 101, 128, 129, 256, 1000 (as far as the family goes) x built by the host / one objectNew call (<= 129 keys) / objectSet calls (<= 17 '
+                    'keys; the quick tier runs the sizes above 17 for index and mixed keys in descending / shuffled order only), followed by objectKeys of the object, of its objectCopy, of an empty and of a two-key object after objectAssign from it, after '
+                    'objectDelete and objectSet of its first key (re-inserted: moves to the end), after overwriting its middle key (keeps its place), through '
+                    'the alias and of the earlier copy.  Lookup part (keys are compared as code-point sequences - no key stands for another one; family confusable: keys equal after strip / '
+                    "int() / float() / case folding / normalisation / truncation at 1000 / wrap-around at 2**32: '1' ' 1' '+1' '01' '1.0' '1_0' | '1000' '1e3' | '0' '-0' '' | "
+                    "'4294967296' '4294967295' '-1' | 'key' 'Key' 'key ' | 'null' 'None'): for every key k of every family, an object holding every OTHER key of the family - "
+                    'objectHas / objectGet / objectGet with default / objectDelete of k, objectSet of k (goes to the end), objectDelete of k (only k goes) - and an object holding '
+                    'ONLY k - objectHas / objectGet with default / objectDelete of every other key of the family.  Random part: <= 30 calls of objectSet / objectDelete / delete + re-insert / objectAssign / objectCopy / '
+                    'objectNew / objectGet / objectHas / objectKeys (and ~3% calls with a key that is not a string) on 2-4 objects with 1-3 aliases each, objectKeys of '
+                    'every object at the end; lib-stream histories (all functions) with the family as key table.  After every call: result, complete state '
+                    '(key order included) with aliasing, frame, freshness against reference and model; non-trivial = objectKeys lists an object whose '
+                    'key sequence differs from its sorted and from its indices-first order')
+    rng = ctx.rng('object-keys')
+    cases = key_history_specs(rng, ctx.scale(300, 4000), ctx.scale(90, 1500), ctx.scale(1, 2), ctx.quick)
+    it = iter(cases)
+
+    def tags_of(spec, info):
+        tags, _ = next(it)
+        largest, unsorted = kf_observed(spec)
+        size = next((s for s in KF_SIZES if largest <= s), KF_SIZES[-1])
+        return unsorted, tags + [f'listed<={size}'] + ['fn:' + c['fn'] for c in spec['calls'] if c['fn'].startswith('object')] + ['failing-call'] * info['fails']
+    specs = [spec for _, spec in cases]
+    for i in range(0, len(specs), 200):
+        run_batch(ctx, 'object-keys', st, specs[i:i + 200], tags_of)
+
+
 def streams(ctx):
     stream_args(ctx)
     stream_index(ctx)
@@ -3116,6 +3429,7 @@ def streams(ctx):
     stream_empties(ctx)
     stream_code_points(ctx)
     stream_history_independence(ctx)
+    stream_object_keys(ctx)
     text_oracles(ctx)
     answered = stream_lib(ctx)
     stream_lib_through_machine(ctx, answered)
@@ -3160,6 +3474,7 @@ def search(ctx):
             return
     with surrogate_mode():
         specs = [gen_history(rng, maxlen=12, p_bad=0.2) for _ in range(ctx.scale(1000, 10000))]
+    specs += [spec for _, spec in key_history_specs(rng, ctx.scale(1500, 15000), ctx.scale(500, 5000), 2, ctx.quick)]      # key alphabets
     for spec in specs:
         wit, _, info = check_history(spec)
         for oracle, k, want, got in wit:
